@@ -404,7 +404,8 @@ def run_shard(shard, tier, seed, acc):
             ex.obs = obs
             return ex
         root = [[0, start]] if start != 0 else []
-        nrun, complete = sched.explore(run, root, bound, visit, shard=(r, m), expired=acc.expired, rng=rng)
+        nrun, complete = sched.explore(run, root, bound, visit, shard=(r, m), expired=acc.expired, rng=rng,
+                                       min_step=1)
         acc.note_sum("executions_including_shard_roots", nrun)
         acc.note_sum("module_level_state_restored", _LEAKS[0])
         _LEAKS[0] = 0
@@ -473,14 +474,30 @@ def selftest():
             elif ex.obs != 2:
                 res["lost"] += 1
         for start in (0, 1):
-            sched.explore(run, [[0, start]] if start else [], bound, visit)
+            sched.explore(run, [[0, start]] if start else [], bound, visit, min_step=1)
         return res
+
+    def schedules(m0, m1, bound, nshards):
+        seen = []
+
+        def run(dev):
+            b = Box()
+            return sched.Scheduler(2, dev).run([lambda: m0(b), lambda: m1(b)])
+        for start in (0, 1):
+            for r in range(nshards):
+                sched.explore(run, [[0, start]] if start else [], bound,
+                              lambda ex: seen.append(tuple(map(tuple, ex.deviations))), shard=(r, nshards),
+                              min_step=1)
+        return seen
 
     sched.instrument({f.__code__: None for f in (Box.racy, Box.safe, Box.ab, Box.ba)})
     try:
+        whole, parts = schedules(Box.racy, Box.racy, 2, 1), schedules(Box.racy, Box.racy, 2, 3)
+        assert len(set(whole)) == len(whole) == len(parts) and set(whole) == set(parts), \
+            "sharding by schedule prefix must partition the schedule space"
         a = explore_toy(Box.racy, Box.racy, 1)
         assert a["lost"] > 0 and a["deadlock"] == 0, a
-        b = explore_toy(Box.safe, Box.safe, 2)
+        b = explore_toy(Box.safe, Box.safe, 1)
         assert b["lost"] == 0 and b["deadlock"] == 0 and b["n"] > a["n"], b
         c = explore_toy(Box.ab, Box.ba, 1)
         assert c["deadlock"] > 0, c
